@@ -13,6 +13,9 @@
 #include "opentelemetry/sdk/metrics/state/metric_collector.h"
 #include "opentelemetry/sdk/metrics/state/sync_metric_storage.h"
 #include "opentelemetry/sdk/metrics/view/attributes_processor.h"
+#include "opentelemetry/sdk/metrics/view/instrument_selector.h"
+#include "opentelemetry/sdk/metrics/view/meter_selector.h"
+#include "opentelemetry/sdk/metrics/view/view.h"
 
 using namespace hz;
 namespace nostd       = opentelemetry::nostd;
@@ -396,6 +399,28 @@ void body(const Case &c)
       w.readers.push_back(rd);
       w.prov->AddMetricReader(rd);
     }
+    // knob view<i>: 0 no view; 1 a view that spells out the instrument's default aggregation
+    // (Sum / LastValue); 2 the same and renames the stream; 3 a renaming view with kDefault
+    for (int i = 0; i < ninstr; ++i)
+    {
+      int vk = (int)c.knob(fmt("view%d", i).c_str(), 0);
+      if (!vk)
+        continue;
+      int kind = (int)c.knob(fmt("itype%d", i).c_str(), 0);
+      auto itype = is_gauge(kind) ? sdkmet::InstrumentType::kObservableGauge
+                   : (kind == I_OBS_UPDOWN_LONG || kind == I_OBS_UPDOWN_DOUBLE)
+                       ? sdkmet::InstrumentType::kObservableUpDownCounter
+                       : sdkmet::InstrumentType::kObservableCounter;
+      auto at = vk == 3 ? sdkmet::AggregationType::kDefault
+                : is_gauge(kind) ? sdkmet::AggregationType::kLastValue
+                                 : sdkmet::AggregationType::kSum;
+      std::unique_ptr<sdkmet::InstrumentSelector> is(
+          new sdkmet::InstrumentSelector(itype, fmt("obs%d", i), ""));
+      std::unique_ptr<sdkmet::MeterSelector> ms(new sdkmet::MeterSelector("m", "", ""));
+      std::unique_ptr<sdkmet::View> view(
+          new sdkmet::View(vk >= 2 ? fmt("v_obs%d", i) : std::string(), "", "", at));
+      w.prov->AddView(std::move(is), std::move(ms), std::move(view));
+    }
     w.meter = w.prov->GetMeter("m");
     w.cb.resize(ninstr);
     for (int i = 0; i < ninstr; ++i)
@@ -640,7 +665,7 @@ void check(const Case &c, const vsim::RunResult &)
   for (int i = 0; i < ninstr; ++i)
   {
     int kind           = (int)c.knob(fmt("itype%d", i).c_str(), 0);
-    std::string stream = fmt("obs%d", i);
+    std::string stream = fmt(c.knob(fmt("view%d", i).c_str(), 0) >= 2 ? "v_obs%d" : "obs%d", i);
     bool after_destroy_seen = false;
     // per series: the observed values in order, with the position of the observation
     struct Obs
@@ -808,6 +833,7 @@ void generate(const std::string &, Rng &wl, Rng &fl, Case &c)
     for (int i = 0; i < ninstr; ++i)
     {
       c.set(fmt("itype%d", i).c_str(), (int64_t)wl.below(6));
+      c.set(fmt("view%d", i).c_str(), wl.chance(0.35) ? (int64_t)wl.range(1, 3) : 0);
       c.set(fmt("initial_cb%d", i).c_str(), (int64_t)wl.range(0, 7));
     }
     c.stratum = "observable";
